@@ -31,7 +31,8 @@ from harness.vlib.core import Ctx, ToolFailure
 from . import corpus, gen, sink
 
 MODEL_FILES = ["MypyVerif/Model/ErrPos.lean", "MypyVerif/Model/Errors.lean", "MypyVerif/Model/ExitStatus.lean",
-               "MypyVerif/Gen/ErrorCodes.lean", "MypyVerif/Gen/ExitRule.lean", "MypyVerif/Proofs/Errors.lean"]
+               "MypyVerif/Gen/ErrorCodes.lean", "MypyVerif/Gen/ExitRule.lean", "MypyVerif/Proofs/Errors.lean",
+               "MypyVerif/Proofs/ErrorsDisplay.lean"]
 DRIVER = "Driver/C13.lean"
 NOTE_MARK = ": note:"
 
@@ -68,10 +69,12 @@ def synthetic(ctx: Ctx) -> None:
         if fails:
             nfail += 1
             if nfail <= 3:
+                small = shrink(evs, _oracle_fails, 400)
+                fails = sink.oracle_sink(small) or fails
                 f = fails[0]
                 ctx.report({"class": "sink-" + f["class"]},
                            "real Errors sink breaks a clause of C13 on a synthetic stream: %s" % json.dumps(f),
-                           {"kind": "sink-stream", "events": evs, "failures": fails[:5]})
+                           {"kind": "sink-stream", "events": small, "failures": fails[:5]})
         if real != mobs:
             ndiff += 1
             ctx.count("disagreements_checked")
@@ -94,38 +97,49 @@ def synthetic(ctx: Ctx) -> None:
     ctx.sample({"synthetic_stream": cases[0][0][:12], "observations": json.loads(model[0])[:1]})
 
 
-def shrink_stream(evs: list[list]) -> list[list]:
-    """Greedy removal of events while model and real still disagree (keeps replays readable)."""
-    def differs(es):
-        try:
-            real, _ = sink.run_real(es)
-        except Exception:
-            return False
-        import subprocess
-        from harness.vlib.core import LEAN
-        p = subprocess.run(["lake", "env", "lean", "--run", DRIVER], cwd=LEAN, input=json.dumps(["stream"] + es) + "\n",
-                           capture_output=True, text=True, timeout=300)
-        if p.returncode != 0:
-            return False
-        try:
-            m = [sink.canon_model_obs(o) for o in json.loads(p.stdout.strip().split("\n")[0])]
-        except ValueError:
-            return False
-        return real != m
+def _model_differs(es: list[list]) -> bool:
+    import subprocess
+    from harness.vlib.core import LEAN
+    try:
+        real, _ = sink.run_real(es)
+    except Exception:
+        return False
+    p = subprocess.run(["lake", "env", "lean", "--run", DRIVER], cwd=LEAN, input=json.dumps(["stream"] + es) + "\n",
+                       capture_output=True, text=True, timeout=300)
+    if p.returncode != 0:
+        return False
+    try:
+        m = [sink.canon_model_obs(o) for o in json.loads(p.stdout.strip().split("\n")[0])]
+    except ValueError:
+        return False
+    return real != m
+
+
+def _oracle_fails(es: list[list]) -> bool:
+    try:
+        return bool(sink.oracle_sink(es))
+    except Exception:
+        return False
+
+
+def shrink(evs: list[list], still_bad, budget: int) -> list[list]:
+    """Greedy removal of events while `still_bad` holds (keeps replays readable)."""
     cur = list(evs)
-    budget = 40
     i = len(cur) - 1
     while i >= 0 and budget > 0:
-        if cur[i][0] in ("R", "A", "U", "N", "C", "X"):
+        if i < len(cur) and cur[i][0] in ("R", "A", "U", "N", "C", "X", "M", "S", "K"):
             cand = cur[:i] + cur[i + 1:]
-            # keep parents of kept notes
-            uids = {e[1] for e in cand if e[0] == "R"}
+            uids = {e[1] for e in cand if e[0] == "R"}          # keep the parents of kept notes
             if all(e[0] != "R" or e[13] is None or e[13][0] in uids for e in cand):
                 budget -= 1
-                if differs(cand):
+                if still_bad(cand):
                     cur = cand
         i -= 1
     return cur
+
+
+def shrink_stream(evs: list[list]) -> list[list]:
+    return shrink(evs, _model_differs, 40)
 
 
 # =============================================================================== (b) clamp + exit function
@@ -163,9 +177,9 @@ def clamp_and_exit(ctx: Ctx) -> None:
         ctx.case(("pos", l, c, el, ec))
         ctx.dist("clamp_args", "end_line<line" if (el is not None and el < l) else "ok")
         if real[2] < real[0] or (real[2] == real[0] and real[3] <= real[1]):
-            ctx.report({"class": "sink-position"}, "Errors.report stored an invalid span %r for arguments %r" % (real, (l, c, el, ec)),
+            report_capped(ctx, {"class": "sink-position"}, "Errors.report stored an invalid span %r for arguments %r" % (real, (l, c, el, ec)),
                        {"kind": "pos", "args": [l, c, el, ec], "impl": real})
-        elif real != json.loads(o):
+        elif real != json.loads(o) and ctx.coverage.get("disagreements_checked", 0) < 3:
             ctx.count("disagreements_checked")
             ctx.violation("position clamp correspondence broken (ErrPos.clamp ≠ Errors.report) for %r: impl %r, model %s; "
                           "the stored span is still valid" % ((l, c, el, ec), real, o),
@@ -178,8 +192,9 @@ def clamp_and_exit(ctx: Ctx) -> None:
         code = (2 if b else 1) if (msgs and n_notes < len(msgs)) else 0     # mypy/main.py, transcribed (3 lines)
         m = json.loads(o)
         ctx.case(("exit", ls, b), nontrivial=bool(ls))
-        if [m[2], m[3]] != [n_err, n_notes] or m[0] != code:
+        if ([m[2], m[3]] != [n_err, n_notes] or m[0] != code) and ctx.coverage.get("exit_model_disagreements", 0) < 3:
             ctx.count("disagreements_checked")
+            ctx.count("exit_model_disagreements")
             ctx.violation("exit-status model ≠ util.count_stats/main on %r: impl (%d, %d, %d) model %r" % (msgs, code, n_err, n_notes, m),
                           {"broken": "correspondence Driver/C13 `exit` vs mypy.util.count_stats", "kind": "exit", "lines": ls, "blockers": b},
                           found_input=False)
@@ -679,8 +694,9 @@ def judge_exit(ctx: Ctx, r: dict, run: dict, src: str, flags: list[str], m: list
     truth = 2 if run["blockers"] else (1 if any_error else 0)
     ctx.dist("exit_status", "status %d" % status)
     ctx.case(("exit-run", r["name"], flags, src), nontrivial=bool(tuples))
-    if m is not None and m[0] != status:
+    if m is not None and m[0] != status and ctx.coverage.get("exit_run_disagreements", 0) < 3:
         ctx.count("disagreements_checked")
+        ctx.count("exit_run_disagreements")
         ctx.violation("exit-status model gives %d, mypy.api.run gave %d for %s" % (m[0], status, r["name"]),
                       {"broken": "correspondence ExitStatus.exitCode vs mypy.main.main", "kind": "program", "name": r["name"],
                        "src": src, "flags": flags}, found_input=False)
